@@ -450,6 +450,16 @@ def foreign_items(kinds, model):
         inner = path("CArc", VOID) if has_arc else prim("u64")
         its.append(typedef("TaggedHandle", [], path("Tagged", inner), None, True))
         args.append(("handle", ptr(path("TaggedHandle"), False)))
+    # users of `const TypeLayout *` (what a crate built with layout checks exports): TypeLayout undeclared (the tool supplies a
+    # forward declaration), declared as a struct, or (C++) an alias of a user struct
+    if "layout_undeclared" in kinds or "layout_struct" in kinds or "layout_alias" in kinds:
+        if "layout_struct" in kinds:
+            its.append(struct("TypeLayout", [], [("size", prim("u64")), ("align", prim("u64"))], [" Layout description."], True))
+        if "layout_alias" in kinds:
+            its.append(struct("LayoutInfo", [], [("size", prim("u64")), ("align", prim("u64"))], [" Layout description."], True))
+            its.append(typedef("TypeLayout", [], path("LayoutInfo"), None, True))
+        its.append(struct("ModuleHeader", [], [("layout", ptr(path("TypeLayout"), True)), ("version", prim("u32"))], [" What a module exports for a load-time layout check."], True))
+        args.append(("header", ptr(path("ModuleHeader"), True)))
     # one short function per planted type: every declaration stays below cbindgen's line_length (vertical wrapping is not modelled)
     if "func" in kinds:
         fns.append(function("render_frame", prim("u32"), [("frame_no", prim("u32")), ("flags", prim("u64"))], [" Unrelated exported function."], True))
